@@ -8,7 +8,7 @@ from ..boolalg import Formula
 from ..cfg import CFG, Node
 from ..model import FuncInfo, Repo
 from ..report import Report
-from ..util import AnalysisError, call_name, chain, const_value, is_const, norm, short, walk_body, walk_local
+from ..util import AnalysisError, parent_map, call_name, chain, const_value, is_const, norm, short, walk_body, walk_local
 
 
 def _is_zero_bytes_times(e: ast.AST) -> bool:
@@ -181,6 +181,11 @@ def flush_rule(repo: Repo, rep: Report, rid: str) -> None:
     fg = Formula(rguard[0].ast.test, ginterp)
     rep.check(fg.always({"PREVBITS": True, "BITS": False}, True), rid, f"{gf.key}:reset-guard", "reset emitted whenever a non-bit field follows bit-fields",
               f"generator reset guard '{short(rguard[0].ast.test, 60)}' can be false when a non-bit field follows a bit-field", gf.loc(rguard[0].ast))
+    rep.check(lg.id not in gg.reachable(lg.id, first_edge="loop", avoid={rguard[0].id}, skip_exc=True), rid, f"{gf.key}:reset-guard:every-iteration",
+              "every iteration of the generator's field loop evaluates the reset guard (the interpreted reader resets on every non-bit field)",
+              "an iteration of the generator's field loop can end before the reset guard is evaluated (a 'continue' above it): a field that emits no "
+              "code (e.g. void) between two bit-fields no longer closes the running unit in the compiled reader, while the layout and the interpreted "
+              "reader start a new unit", gf.loc(rguard[0].ast))
     ys = [n for n in gg.nodes if n.id in in_g and n.id != rguard[0].id and n.kind == "stmt" and any(isinstance(y, (ast.Yield, ast.YieldFrom)) for y in ast.walk(n.ast))
           and n.ast not in rguard[0].ast.body]
     appends = [n for n in gg.nodes if n.id in in_g and n.kind == "stmt" and node_calls(n, "append", "current_block")]
@@ -262,19 +267,37 @@ def terminator_rule(repo: Repo, rep: Report, rid: str) -> None:
             rep.ok(rid, f"{f.key}:loop", "delegates to the underlying type's _read_0" if dele else "no loop (degenerate element)", f.loc(), nontrivial=bool(dele))
             continue
         nr += 1
-        lp = loops[0]
+        for extra in loops[1:]:
+            _reader_loop(rep, rid, f, g, extra, f"{f.key}:loop#{loops.index(extra) + 1}")
+        _reader_loop(rep, rid, f, g, loops[0], f"{f.key}:loop")
+    rep.floor(rid, "null-terminated reader loops", nr, 5)
+
+
+def _reader_loop(rep: Report, rid: str, f: FuncInfo, g: CFG, lp, key: str) -> None:
+    if True:
         body_ids = g.reachable(lp.id, first_edge="T", avoid={lp.id})
         appends = [n for n in g.nodes if n.id in body_ids and n.kind == "stmt" and node_calls(n, "append")]
         if isinstance(lp.ast.test, ast.NamedExpr) or any(isinstance(x, ast.NamedExpr) for x in ast.walk(lp.ast.test)):
             # while obj := cls._read(...):  -> the falsy element ends the loop and is not appended
             has_read = any(call_name(c) in ("_read", "read") for c in ast.walk(lp.ast.test) if isinstance(c, ast.Call))
-            rep.check(has_read and bool(appends), rid, f"{f.key}:loop", "element read in the loop test; a zero element ends the loop un-appended",
+            rep.check(has_read and bool(appends), rid, key, "element read in the loop test; a zero element ends the loop un-appended",
                       "loop test does not read the element", f.loc(lp.ast))
-            continue
+            return
         readn = [n for n in g.nodes if n.id in body_ids and (node_calls(n, "read") or node_calls(n, "_read"))]
         zero = [n for n in g.nodes if n.id in body_ids and n.kind == "if" and any(isinstance(s, ast.Break) for s in n.ast.body)
                 and any(isinstance(c, ast.Constant) and c.value in (0, b"\x00", b"\x00\x00", "\x00") for c in ast.walk(n.ast.test))]
         ok = bool(readn) and bool(zero) and bool(appends)
+        if ok and f.cls is not None and f.cls.name == "StructureMetaType":
+            # a structure's terminator is the first element whose *fields* are all zero: the test must look at the parsed element, raw bytes also
+            # cover padding and unused bits, which belong to no field
+            from ..util import resolve_local
+
+            operands = [resolve_local(f.node, x) if isinstance(x, ast.Name) else x for x in ast.walk(zero[0].ast.test)]
+            raw = [c for o in operands if o is not None for c in ast.walk(o) if isinstance(c, ast.Call) and call_name(c) == "read"]
+            if raw:
+                rep.fail(rid, key, f"{f.qualname}: the terminator test compares raw bytes ('{short(zero[0].ast.test, 60)}'): an element whose fields are all zero but "
+                                   "whose padding / unused bits are not is no longer recognised as the terminator", f.loc(zero[0].ast))
+                return
         if ok:
             first_read = min(readn, key=lambda n: n.lineno)
             z = zero[0]
@@ -283,10 +306,9 @@ def terminator_rule(repo: Repo, rep: Report, rid: str) -> None:
                 ok = all(g.must_pass(lp.id, a.id, {z.id}) for a in appends)
             else:
                 ok = g.must_pass(lp.id, z.id, {first_read.id}) and all(g.must_pass(first_read.id, a.id, {z.id}) for a in appends)
-        rep.check(ok, rid, f"{f.key}:loop", "read -> zero test (break) -> append",
+        rep.check(ok, rid, key, "read -> zero test (break) -> append",
                   f"{f.qualname}: the element is not read before the zero test, or it can be appended without passing the zero test "
                   f"(terminator must be consumed and not returned)", f.loc(lp.ast))
-    rep.floor(rid, "null-terminated reader loops", nr, 5)
 
 
 def offset_pad_rule(repo: Repo, rep: Report, rid: str) -> None:
@@ -341,6 +363,20 @@ def leb128_termination_rule(repo: Repo, rep: Report, rid: str) -> None:
     rep.rule(rid, "LEB128 writer: every path that emits output passes the termination test that consults cls.signed and the sign bit (no fast "
                   "path may bypass it: 64..127 need two bytes when signed)")
     fi = repo.func("types/leb128.py", "LEB128._write")
+    from ..folds import fold_leb128
+
+    fold = fold_leb128(repo)
+    if fold is not None:
+        bad = [x for x in fold["write_bad"] if x[3] != "refusal of a negative value"] + [x for x in fold["loop_bad"] if x[0] == "write"]
+        rep.check(not bad, rid, f"{fi.key}:termination", f"writer folded over {fold['cases']} (signedness, value) cases: every value gets the canonical reference "
+                  "encoding (the sign-aware termination test is passed on every path)",
+                  "LEB128._write can emit output without passing the termination test that looks at cls.signed and the sign bit 0x40: some values get a "
+                  f"non-canonical or wrong encoding (e.g. a single byte for signed 64..127 decodes as negative): (signed, value, emitted, reference) = {bad[0] if bad else ''}",
+                  fi.loc())
+        neg_bad = [x for x in fold["write_bad"] if x[3] == "refusal of a negative value"]
+        rep.check(not neg_bad, rid, f"{fi.key}:negative-unsigned", "negative values are refused for unsigned LEB128",
+                  f"negative values are no longer refused for uleb128: {neg_bad[0] if neg_bad else ''}", fi.loc())
+        return
     g = CFG(fi.node)
     stream = fi.node.args.args[1].arg
     term = {n.id for n in g.nodes if n.kind == "if" and f"{fi.self_name}.signed" in norm(n.ast.test) and any(
@@ -355,9 +391,77 @@ def leb128_termination_rule(repo: Repo, rep: Report, rid: str) -> None:
     rep.check(bool(neg), rid, f"{fi.key}:negative-unsigned", "negative values are refused for unsigned LEB128", "negative values are no longer refused for uleb128", fi.loc())
 
 
+FIXTURE_DEFAULT_OR = "def f(data, t):\n    value = getattr(data, 'x', None) or t.__default__()\n    if not value:\n        value = t.__default__()\n    return value\n"
+
+
+def _truthiness_substitutions(fn: ast.AST):
+    """__default__() calls that replace a value on a truthiness test ('x or T.__default__()', 'if not x: x = T.__default__()'): zero, -0.0, empty
+    arrays and all-zero structures are falsy but are values, only None means 'missing'."""
+    pm = parent_map(fn)
+    for c in ast.walk(fn):
+        if not (isinstance(c, ast.Call) and call_name(c) == "__default__"):
+            continue
+        child, p = c, pm.get(c)
+        while p is not None and not isinstance(p, (ast.FunctionDef, ast.AsyncFunctionDef, ast.Lambda)):
+            if isinstance(p, ast.BoolOp) and isinstance(p.op, ast.Or) and child is not p.values[0]:
+                yield c, f"'{short(p, 70)}' replaces every falsy value"
+                break
+            if isinstance(p, ast.IfExp) and child is not p.test and not _tests_none(p.test):
+                yield c, f"'{short(p, 70)}' selects the default on a truthiness test"
+                break
+            if isinstance(p, ast.If) and any(child is x for x in p.body + p.orelse):
+                if isinstance(child, ast.Assign) and not _tests_none(p.test) and _is_plain_truth_test(p.test, child):
+                    yield c, f"'if {short(p.test, 50)}:' replaces every falsy value"
+                break
+            child, p = p, pm.get(p)
+
+
+def _tests_none(test: ast.AST) -> bool:
+    return any(isinstance(x, ast.Compare) and any(isinstance(o, (ast.Is, ast.IsNot)) for o in x.ops) and any(norm(k) == "None" for k in x.comparators)
+               for x in ast.walk(test))
+
+
+def _is_plain_truth_test(test: ast.AST, assign: ast.Assign) -> bool:
+    tgt = norm(assign.targets[0])
+    t = test.operand if isinstance(test, ast.UnaryOp) and isinstance(test.op, ast.Not) else test
+    return norm(t) == tgt
+
+
+def default_substitution_rule(repo: Repo, rep: Report, rid: str) -> None:
+    rep.rule(rid, "a field value is replaced by the type's default only when it is None (missing): no 'value or default' / 'if not value' substitution, "
+                  "which would also replace 0, -0.0, empty arrays and all-zero nested structures")
+    fx = list(_truthiness_substitutions(ast.parse(FIXTURE_DEFAULT_OR)))
+    if len(fx) != 2:
+        raise AnalysisError("truthiness-substitution matcher no longer recognises its positive fixture")
+    rep.ok(rid, "fixture:value or T.__default__()", "matcher recognises both forms of its positive fixture", "", nontrivial=False)
+    sites = 0
+    for fi in repo.all_functions():
+        has = [c for c in walk_body(fi.node.body) if isinstance(c, ast.Call) and call_name(c) == "__default__"]
+        if not has:
+            continue
+        bad = list(_truthiness_substitutions(fi.node))
+        for c, why in bad:
+            rep.fail(rid, f"{fi.key}:{short(c, 50)}", f"{why}: a field holding a falsy value (e.g. float -0.0, whose sign bit is set) is dumped as the default", fi.loc(c))
+        guarded = [c for c in has if not any(c is b for b, _ in bad)]
+        for c in guarded:
+            sites += 1
+            rep.ok(rid, f"{fi.key}:{short(c, 50)}", "default taken only for a missing (None) value or as a terminator / initial value", fi.loc(c))
+    rep.floor(rid, "__default__() call sites", sites, 7)
+
+
 def run(repo: Repo, rep: Report, tier: str) -> None:
     offset_pad_rule(repo, rep, "C02.R4")
     leb128_termination_rule(repo, rep, "C02.R5")
     padding_rule(repo, rep, "C02.R1")
     flush_rule(repo, rep, "C02.R2")
     terminator_rule(repo, rep, "C02.R3")
+    from .c05 import codec_fold_rule
+
+    codec_fold_rule(repo, rep, "C02.R6")
+    from .c06 import mask_rule
+
+    mask_rule(repo, rep, "C02.R7")
+    default_substitution_rule(repo, rep, "C02.R8")
+
+
+
